@@ -58,6 +58,14 @@ def check(o1, o2, order):
             msgs.append(f"{cls.__name__}.keys({o1}) = {sorted(ks)}, union over members = {sorted(union)} (order={order})")
         if cls.explain(o1) != {k for name in ("a", "b", "nested") + (("d",) if cls is Child else ()) for k in {"a": ds, "b": Option_("B", 1), "nested": Option_("S.X", 0), "d": Option_("EXTRA.D", 0.5)}[name].explain(o1)}:
             msgs.append(f"{cls.__name__}.explain({o1}) is not the union over members (order={order})")
+        # the instance is a snapshot: mutating the dictionary it was built from afterwards changes neither ==, repr nor its members
+        live = copy.deepcopy(o1)
+        snap_inst = cls(live)
+        before = repr(snap_inst)
+        live["B"] = 99
+        live.setdefault("S", {})["X"] = 77
+        if repr(snap_inst) != before or snap_inst != inst:
+            msgs.append(f"{cls.__name__}: instance built from {o1} changed (repr/==) after the caller mutated that dictionary: {before} -> {snap_inst!r}")
         try:
             other = cls(copy.deepcopy(o2))
         except Exception:  # noqa
